@@ -70,7 +70,7 @@ def spread(first: int, /, second: str = "s", *rest: int, flag: bool = False, **e
     return first + len(second) + len(rest) + len(extra)
 
 
-def lookup(table: dict[str, int], key: tuple[int, str], seen: set[int]) -> bool:
+def lookup(table: dict[str, list[int]], key: tuple[int, str], seen: set[int]) -> bool:
     return key[1] in table and key[0] in seen
 
 
